@@ -227,3 +227,132 @@ def shared_writes(fn: ast.FunctionDef, is_store: Callable[[str], bool]) -> list[
     sh = Sharing(is_store)
     sh.block(fn.body, {})
     return sh.reports
+
+
+# ---------------------------------------------------------------------------------------------------------
+# memo invalidation
+def _self_attr(e) -> Optional[str]:
+    if isinstance(e, ast.Attribute) and isinstance(e.value, ast.Name) and e.value.id == "self":
+        return e.attr
+    return None
+
+
+def memo_attrs(fn: ast.FunctionDef) -> dict:
+    """{attr: deps} for every `self.attr` used as a memo in `fn`: looked up under a guard with a non-constant key
+    (`try: self.attr[k] ... except KeyError`, `k in self.attr`, `self.attr.get(k)`) and filled with the same key
+    (`self.attr[k] = value`, setdefault) in the same function; deps = the other `self.x` / `self.x['k']` slots read."""
+    stored, looked = {}, {}
+
+    def key_text(k):
+        return None if isinstance(k, ast.Constant) else unparse(k)
+
+    for n in ast.walk(fn):
+        if isinstance(n, ast.Subscript) and isinstance(n.ctx, ast.Store):
+            a = _self_attr(n.value)
+            if a and key_text(n.slice):
+                stored.setdefault(a, set()).add(key_text(n.slice))
+        if isinstance(n, ast.Call) and isinstance(n.func, ast.Attribute) and n.func.attr in ("get", "setdefault") and n.args:
+            a = _self_attr(n.func.value)
+            if a and key_text(n.args[0]):
+                looked.setdefault(a, set()).add(key_text(n.args[0]))
+                if n.func.attr == "setdefault":
+                    stored.setdefault(a, set()).add(key_text(n.args[0]))
+        if isinstance(n, ast.Compare) and len(n.ops) == 1 and isinstance(n.ops[0], (ast.In, ast.NotIn)):
+            a = _self_attr(n.comparators[0])
+            if a and key_text(n.left):
+                looked.setdefault(a, set()).add(key_text(n.left))
+        if isinstance(n, ast.Try) and any(h.type is None or "KeyError" in unparse(h.type) or "LookupError" in unparse(h.type) or unparse(h.type) == "Exception" for h in n.handlers):
+            for b in n.body:
+                for x in ast.walk(b):
+                    if isinstance(x, ast.Subscript) and isinstance(x.ctx, ast.Load):
+                        a = _self_attr(x.value)
+                        if a and key_text(x.slice):
+                            looked.setdefault(a, set()).add(key_text(x.slice))
+    out = {}
+    for m in set(stored) & set(looked):
+        if not (stored[m] & looked[m]):
+            continue
+        deps = set()
+        for n in ast.walk(fn):
+            if isinstance(getattr(n, "ctx", None), ast.Load):
+                s = slot_of(n) if isinstance(n, (ast.Attribute, ast.Subscript)) else None
+                if s and s.startswith("self.") and not s.startswith(f"self.{m}") and s != "self":
+                    deps.add(s)
+        # `self.fields` read as a whole does not count once its entries are named
+        out[m] = {d for d in deps if not any(o != d and o.startswith(d + "[") for o in deps)}
+    return out
+
+
+def _paths(stmts: list, limit: int = 4096):
+    """Syntactic paths through a block as lists of simple statements (loops: zero or one iteration)."""
+    paths = [([], False)]
+    for st in stmts:
+        new = []
+        for p, done in paths:
+            if done:
+                new.append((p, True))
+                continue
+            if isinstance(st, ast.If):
+                for sub, d in _paths(st.body, limit):
+                    new.append((p + [st.test] + sub, d))
+                for sub, d in _paths(st.orelse, limit):
+                    new.append((p + [st.test] + sub, d))
+            elif isinstance(st, (ast.For, ast.While)):
+                new.append((p, False))
+                for sub, d in _paths(st.body, limit):
+                    new.append((p + sub, d))
+            elif isinstance(st, ast.With):
+                for sub, d in _paths(st.body, limit):
+                    new.append((p + sub, d))
+            elif isinstance(st, ast.Try):
+                for sub, d in _paths(st.body + st.orelse + st.finalbody, limit):
+                    new.append((p + sub, d))
+                for h in st.handlers:
+                    for sub, d in _paths(h.body + st.finalbody, limit):
+                        new.append((p + sub, d))
+            elif isinstance(st, ast.Raise):
+                continue  # the call fails: nothing is answered from the memo afterwards
+            elif isinstance(st, ast.Return):
+                new.append((p + [st], True))
+            else:
+                new.append((p + [st], False))
+        paths = new
+        if len(paths) > limit:
+            raise OverflowError("too many paths")
+    return paths
+
+
+def stale_memo_paths(fn: ast.FunctionDef, memo: str, deps: set) -> list:
+    """Paths of `fn` that write one of `deps` and leave the memo as it was: [(first write node, slot)]."""
+    bad = []
+    for p, _ in _paths(fn.body):
+        wrote = None
+        inval = False
+        for st in p:
+            for n in ast.walk(st):
+                if isinstance(n, (ast.Assign, ast.AugAssign, ast.AnnAssign, ast.Delete)):
+                    tg = n.targets if isinstance(n, (ast.Assign, ast.Delete)) else [n.target]
+                    for t in tg:
+                        for el in t.elts if isinstance(t, (ast.Tuple, ast.List)) else [t]:
+                            s = slot_of(el) if isinstance(el, (ast.Attribute, ast.Subscript)) else None
+                            if s is None and isinstance(el, ast.Subscript):
+                                s = slot_of(el.value) if isinstance(el.value, (ast.Attribute, ast.Subscript)) else None
+                            if not s:
+                                continue
+                            if s == f"self.{memo}" or s.startswith(f"self.{memo}["):
+                                if s == f"self.{memo}" or isinstance(n, ast.Delete):
+                                    inval = True
+                                continue
+                            hit = s in deps or (s.endswith("[*]") and any(d.startswith(s[:-3] + "[") for d in deps)) or any(d.startswith(s + "[") for d in deps)
+                            if hit and wrote is None:
+                                wrote = (n, s)
+                if isinstance(n, ast.Call) and isinstance(n.func, ast.Attribute) and n.func.attr in ("clear", "pop", "popitem") and _self_attr(n.func.value) == memo:
+                    inval = True
+        if wrote is not None and not inval:
+            bad.append(wrote)
+    seen, out = set(), []
+    for n, s in bad:
+        if (n.lineno, s) not in seen:
+            seen.add((n.lineno, s))
+            out.append((n, s))
+    return out
